@@ -270,6 +270,12 @@ int l1sched_configure_ts(struct l1sched_state *sched, int tn,
 		return -EINVAL;
 	if (ts->mf_layout->chan_config != config)
 		return -EINVAL;
+	/* A layout without any frames (GSM_PCHAN_NONE) cannot be scheduled:
+	 * fn % period would divide by zero on the first burst / RTS. */
+	if (ts->mf_layout->period == 0 || ts->mf_layout->frames == NULL) {
+		ts->mf_layout = NULL;
+		return -EINVAL;
+	}
 
 	LOGP_SCHEDC(sched, LOGL_NOTICE,
 		    "(Re)configure TDMA timeslot #%u as %s\n",
